@@ -670,7 +670,8 @@ for c in calls:
         continue
     L.subj_reset()
     out0 = L.hd_outstanding()
-    objs = pos + list((kw or {}).values())
+    # objects whose reference count the wrapper can unbalance (scalars are immortal / cached by the interpreter)
+    objs = [o for o in pos + list((kw or {}).values()) if not isinstance(o, (int, float, str, bytes, type(None)))]
     rc0 = [sys.getrefcount(o) for o in objs]
     r = None
     try:
